@@ -644,3 +644,20 @@ pub(crate) fn set_top_stamp(l: &ZalsaLocal, d: Durability, r: Revision) {
     unsafe { l.with_query_stack_unchecked_mut(|stack| crate::active_query::verif::set_stamp(stack.last_mut().unwrap(), d, r)) }
 }
 
+
+impl<'me> ActiveQueryGuard<'me> {
+    /// Stand-in for `pop` in the modular harness of `execute` (G-EXEC-1): the frame stays on the stack
+    /// (the harness forgets everything), and the completed query reports durability
+    /// `function::verif::POP_DURABILITY`, `changed_at` = the current revision (the frame read something
+    /// that changed now), fully tracked, no edges, no cycle heads, no stale structs.
+    pub(crate) fn verif_pop(self, _iteration: IterationStamp) -> crate::active_query::CompletedQuery {
+        // SAFETY: single-threaded harness
+        let d = unsafe { crate::function::verif::POP_DURABILITY };
+        let cur = crate::function::verif::current_revision_of_world();
+        std::mem::forget(self);
+        crate::active_query::CompletedQuery {
+            revisions: revs(crate::verif_support::durability_of(d), cur, true, empty_derived()),
+            stale_tracked_structs: Vec::new(),
+        }
+    }
+}
